@@ -14,7 +14,10 @@ type V = (String, String);
 
 // (3,2,100) and (3,2,120): same counts, same number of 64-byte blocks, different length of the short final block
 // (3,3,64): high rate with a padded first chunk although original_count >= recovery_count
-pub const CFGS: [(usize, usize, usize); 10] = [(3, 2, 64), (2, 3, 64), (5, 3, 66), (3, 5, 130), (1, 1, 2), (3, 3, 64), (9, 2, 2), (2, 9, 2), (3, 2, 100), (3, 2, 120)];
+// (3,2,100)/(3,2,120): same counts and block count, different short final block;
+// (3,3,64): high rate with a padded first chunk although original_count >= recovery_count;
+// (5,3,64): same total working-space size as (3,2,100) but a different geometry (positions x blocks)
+pub const CFGS: [(usize, usize, usize); 11] = [(3, 2, 64), (2, 3, 64), (5, 3, 66), (3, 5, 130), (1, 1, 2), (3, 3, 64), (9, 2, 2), (2, 9, 2), (3, 2, 100), (3, 2, 120), (5, 3, 64)];
 
 #[derive(Clone, Debug)]
 struct Step {
@@ -31,13 +34,13 @@ struct Step {
 }
 
 fn fmt_steps(s: &[Step]) -> String {
-    s.iter().map(|s| format!("{}{}{}{}{}", s.cfg, s.trans, s.data, s.shape, if s.abandoned { 'a' } else { 'c' })).collect::<Vec<_>>().join(";")
+    s.iter().map(|s| format!("{}{}{}{}{}", (b'a' + s.cfg as u8) as char, s.trans, s.data, s.shape, if s.abandoned { 'a' } else { 'c' })).collect::<Vec<_>>().join(";")
 }
 fn parse_steps(s: &str) -> Vec<Step> {
     s.split(';')
         .map(|t| {
             let c: Vec<char> = t.chars().collect();
-            Step { cfg: c[0].to_digit(10).unwrap() as usize, trans: c[1], data: c[2].to_digit(10).unwrap() as u8, shape: c[3].to_digit(10).unwrap() as u8, abandoned: c[4] == 'a' }
+            Step { cfg: (c[0] as u8 - b'a') as usize, trans: c[1], data: c[2].to_digit(10).unwrap() as u8, shape: c[3].to_digit(10).unwrap() as u8, abandoned: c[4] == 'a' }
         })
         .collect()
 }
@@ -213,7 +216,7 @@ pub fn replay(_ctx: &Ctx, case: &str) -> Result<(), String> {
 /// depth-3 sequences over a reduced alphabet (size-class changes with equal counts, one rate switch,
 /// one padded configuration), used in the quick tier where the full depth-3 space is too big
 fn gen_reduced3(decoder: bool, kind0: Kind) -> Vec<Vec<Step>> {
-    let cfgs = [0usize, 2, 4, 5, 8, 9]; // (3,2,64) (5,3,66) (1,1,2) (3,3,64) (3,2,100) (3,2,120)
+    let cfgs = [0usize, 2, 4, 5, 8, 9, 10]; // (3,2,64) (5,3,66) (1,1,2) (3,3,64) (3,2,100) (3,2,120) (5,3,64)
     let trans: Vec<char> = if kind0 == Kind::Rs { vec!['r', 'i'] } else { vec!['r', 'i', 'D', 'L'] };
     let mut out = Vec::new();
     for &c0 in &cfgs {
@@ -326,7 +329,7 @@ pub fn run(ctx: &Ctx, rep: &mut Report) {
             }
         }
     }
-    rep.bound("depth", J::s(format!("d <= {dmax_all} (d = 3: nosimd and default engine, soiled start, earlier rounds completed; quick: d = 3 over a reduced 6-member alphabet)")));
+    rep.bound("depth", J::s(format!("d <= {dmax_all} (d = 3: nosimd and default engine, soiled start, earlier rounds completed; quick: d = 3 over a reduced 7-member alphabet)")));
     rep.bound("alphabet", J::s(format!("{CFGS:?}")));
     let results: Vec<Result<(), V>> = par_for(jobs.len(), 16, |i| {
         let (eng, decoder, kind0, soil, seq) = &jobs[i];
